@@ -133,6 +133,22 @@ theorem isl_next_jdn (h m d : Int) (hv : Islamic.Valid h m d) :
         · simp [hl] at hy ⊢; omega
 
 
+/-- For every argument triple -- valid date or not -- the two `while` loops of `gregorian2moslem`
+    finish within the fuel: the model never reports `.error .other`. -/
+theorem g2m_fuel_suffices (y m d : Int) : gregorian2moslem y m d ≠ .error .other := by
+  rw [gregorian2moslem_int]
+  by_cases hval : d < 1 ∨ d > 31 ∨ m < 1 ∨ m > 12 ∨ y < -4712
+  · simp only [hval, if_true]; intro h; cases h
+  · simp only [hval, if_false]
+    have hhead : g2mHeadI y m d = (g2mH (jdnI y m d), g2mJJ (jdnI y m d)) := by
+      unfold g2mHeadI; rw [g2mDayNumber_eq y m d (by omega) (by omega), g2mFromInv_eq]
+    rw [hhead]
+    obtain ⟨_, hj1, hj2⟩ := g2mFromInv_spec (jdnI y m d)
+    obtain ⟨h', jj', ⟨s1, e1, e2⟩, _⟩ := loops_spec _ _ hj1 hj2
+    dsimp only
+    rw [e1]; dsimp only; rw [e2]; dsimp only
+    intro h; cases h
+
 /-- the JDE (0h) of the civil date `moslem2gregorian` returns, `none` if it raises -/
 def m2gJde (h m d : Int) : Option ℚ :=
   match moslem2gregorian h m d with
